@@ -85,9 +85,36 @@ func (e *Engine) loadSpec(dir string) error {
 				// count top-level parameter groups
 				n = countParams(m[2])
 				e.specFuncs[m[1]] = specFn{params: make([]string, n), result: m[3]}
-			} else if m := reDeclFun.FindStringSubmatch(line); m != nil {
-				n := countSorts(m[2])
-				e.specFuncs[m[1]] = specFn{params: make([]string, n), result: m[3]}
+			} else if strings.HasPrefix(line, "(declare-fun ") {
+				// (declare-fun name (sorts...) result)
+				rest := strings.TrimSpace(line[len("(declare-fun "):])
+				sp := strings.IndexAny(rest, " \t")
+				if sp < 0 {
+					continue
+				}
+				name := rest[:sp]
+				rest = strings.TrimSpace(rest[sp:])
+				if !strings.HasPrefix(rest, "(") {
+					continue
+				}
+				depth, end := 0, -1
+				for i, c := range rest {
+					if c == '(' {
+						depth++
+					} else if c == ')' {
+						depth--
+						if depth == 0 {
+							end = i
+							break
+						}
+					}
+				}
+				if end < 0 {
+					continue
+				}
+				n := countSorts(rest[1:end])
+				result := strings.TrimSpace(strings.TrimSuffix(strings.TrimSpace(rest[end+1:]), ")"))
+				e.specFuncs[name] = specFn{params: make([]string, n), result: result}
 			}
 		}
 	}
